@@ -26,9 +26,9 @@ pub fn run_input(src: &str, rep: &mut Report) -> Option<(String, String)> {
     rep.count("evaluations", 1);
     let parsed = match guarded("parse", || fun::parser::parse_module(src)) {
         Ok(Ok(p)) => p,
-        Ok(Err(_)) => {
+        Ok(Err(e)) => {
             rep.count("rejected_by_parser", 1);
-            return None;
+            return render_diagnostic(driver::result::DriverError::from(e), src, "parse-diagnostic", rep);
         }
         Err(StageError::Panic { msg, .. }) => return Some(("parse".into(), msg)),
         Err(_) => return None,
@@ -36,9 +36,9 @@ pub fn run_input(src: &str, rep: &mut Report) -> Option<(String, String)> {
     rep.count("reached_the_checker", 1);
     let checked = match guarded("check", || parsed.check()) {
         Ok(Ok(p)) => p,
-        Ok(Err(_)) => {
+        Ok(Err(e)) => {
             rep.count("rejected_by_checker", 1);
-            return None;
+            return render_diagnostic(driver::result::DriverError::from(e), src, "check-diagnostic", rep);
         }
         Err(StageError::Panic { msg, .. }) => return Some(("check".into(), msg)),
         Err(_) => return None,
@@ -79,6 +79,26 @@ pub fn run_input(src: &str, rep: &mut Report) -> Option<(String, String)> {
     }
     rep.count("compiled_by_all_stages", 1);
     None
+}
+
+/// A rejected input must come with a *reported* error: the diagnostic is rendered against the
+/// source text exactly as `scc` does (`Driver::error_to_report`, then the report's Debug form).
+fn render_diagnostic(err: driver::result::DriverError, src: &str, stage: &'static str, rep: &mut Report) -> Option<(String, String)> {
+    let src_owned = src.to_string();
+    match guarded(stage, move || {
+        let report: miette::Report = miette::Report::from(err).with_source_code(src_owned);
+        format!("{report:?}").len()
+    }) {
+        Ok(n) => {
+            rep.count("diagnostics_rendered", 1);
+            if n == 0 {
+                return Some((stage.into(), "empty diagnostic".into()));
+            }
+            None
+        }
+        Err(StageError::Panic { msg, .. }) => Some((stage.into(), msg)),
+        Err(_) => None,
+    }
 }
 
 fn handle(src: &str, origin: &str, rep: &mut Report) {
